@@ -259,6 +259,54 @@ static void ob_report(H<T>& h)
     std::remove(file.c_str());
 }
 
+
+// ---- ob 3: callbacks returning false at any position (C12): every rank stops there, no hang, same checkpoint as serial ----
+template <typename T, typename A>
+static void ob_scripted(H<T>& h)
+{
+    world<T> w(h);
+    int const P = static_cast<int>(h.get("P", 2));
+    std::size_t const n = h.get("n", 3);
+    auto const calls = total_calls_pattern(h.get("tc", 1), n);
+    A::params(w);
+    typename A::chk const base = A::fresh(w);
+    // the answers are a function of the iteration only (the same on every rank, as a callback deciding on the reduced data is)
+    std::vector<bool> answers;
+    for (std::size_t k = 0; k != n; ++k) answers.push_back(h.choose("callback_returns", 2) == 0);
+    struct serial_cb
+    {
+        std::vector<bool> const* a;
+        bool operator()(typename A::chk const& c) const { return a->at(c.results().size() - 1); }
+    };
+    typename A::chk const serial = A::run(w, calls, base, serial_cb{&answers});
+    std::string const serial_text = ser(serial);
+    std::size_t expected = n;
+    for (std::size_t k = 0; k != n; ++k) if (!answers[k]) { expected = k + 1; break; }
+    h.check("C12|mpi.serial_reference_stops_at_the_first_false", h.truth(serial.results().size() == expected));
+    std::deque<rank_env<T>> envs;
+    for (int r = 0; r < P; ++r) envs.emplace_back(w);
+    std::vector<std::string> texts(P);
+    std::vector<std::size_t> invocations(P, 0);
+    mpishim::run<T>(P, [&](int r) {
+        struct cb_t
+        {
+            std::vector<bool> const* a; std::size_t* count;
+            bool operator()(MPI_Comm, typename A::chk const& c) const { ++*count; return a->at(c.results().size() - 1); }
+        };
+        auto out = mpi_run(static_cast<A*>(nullptr), w, envs[r], calls, base, cb_t{&answers, &invocations[r]});
+        texts[r] = ser(out);
+    });
+    auto& W = mpishim::W();
+    if (W.hang || W.mismatch) h.event(W.problem);
+    h.check("C04,C12|mpi.no_rank_hangs_when_the_callback_ends_the_run", h.truth(!W.hang && !W.mismatch));
+    if (W.hang || W.mismatch) return;
+    for (int r = 0; r < P; ++r)
+    {
+        h.check("C12|mpi.callback_invoked_once_per_performed_iteration_on_every_rank", h.truth(invocations[r] == expected));
+        h.check("C04,C12|mpi.stops_like_the_serial_run", texts_identical<T>(h, serial_text, texts[r]));
+    }
+}
+
 template <typename T, typename A>
 static void by_ob(H<T>& h)
 {
@@ -267,6 +315,7 @@ static void by_ob(H<T>& h)
     case 0: ob_equivalence<T, A>(h); break;
     case 1: ob_stop<T, A>(h); break;
     case 2: ob_report<T, A>(h); break;
+    case 3: ob_scripted<T, A>(h); break;
     }
 }
 
